@@ -346,6 +346,7 @@ class Ctx:
             "notes": self.notes,
             "survey": self.survey,
             "wall_s": time.monotonic() - self.t0,
+            "cpu_s": time.process_time() - self.cpu0,
         }
 
 
@@ -580,6 +581,8 @@ def parent_main(prop, tier, seed, replay=None, shards=None):
             "inconclusive_budget_hit": inconclusive,
             "shards": nshards,
             "shards_failed": len(harness_errors),
+            "shard_cpu_s_max": round(max((r.get("cpu_s", 0.0) for r in results), default=0.0), 1),
+            "shard_cpu_s_total": round(sum(r.get("cpu_s", 0.0) for r in results), 1),
             "notes": notes[:10],
         },
         "assumptions": list(getattr(module, "ASSUMPTIONS", [])),
@@ -602,7 +605,7 @@ def parent_main(prop, tier, seed, replay=None, shards=None):
     print(
         f"{prop} {tier} seed={seed}: {ev} evaluations, {len(hashes) + nt_enum} distinct non-trivial, "
         f"{discarded} discarded, excluded_known={excluded}, replays={n_replays}, "
-        f"inconclusive={inconclusive}, wall={wall:.1f}s"
+        f"inconclusive={inconclusive}, wall={wall:.1f}s, cpu/shard max={max((r.get('cpu_s', 0.0) for r in results), default=0.0):.1f}s"
     )
     # clean work dir
     if not harness_errors:
